@@ -988,7 +988,10 @@ def _order_after_insert(d, k):
 def odict_wf(d):
     """the order sequence of a dict lists exactly its keys, each once"""
     x = z3.Const('x!od', d.kty.sort() if d.kty.kind != 'Tuple' else d.has.sort().domain()); i, j = z3.Int('i!od'), z3.Int('j!od')
-    return [z3.ForAll([x], z3.Contains(d.order, z3.Unit(x)) == z3.Select(d.has, x), patterns=[z3.Contains(d.order, z3.Unit(x)), z3.Select(d.has, x)]),
+    body = z3.Contains(d.order, z3.Unit(x)) == z3.Select(d.has, x)
+    try: q = z3.ForAll([x], body, patterns=[z3.Contains(d.order, z3.Unit(x)), z3.Select(d.has, x)])
+    except z3.Z3Exception: q = z3.ForAll([x], body)          # (constant order/has terms: the patterns simplify away)
+    return [q,
             z3.ForAll([i, j], z3.Implies(z3.And(0 <= i, i < j, j < z3.Length(d.order)), d.order[i] != d.order[j]))]
 
 class StarSeq(V):
@@ -1006,6 +1009,20 @@ class InnerRef(V):
 class SymKeys(V):
     """d.keys() of a symbolic dict"""
     def __init__(self, d): self.d = d
+
+class SymValues(V):
+    """d.values() of a symbolic dict"""
+    def __init__(self, d): self.d = d
+
+def view_source_fn(view_cls, src_cls):
+    return z3.Function('viewed_%s_as_%s' % (src_cls, view_cls), ObjSort(view_cls), ObjSort(src_cls))
+
+_flat_fns = {}
+def chain_flat_fn(ety):
+    key = str(ety.sort())
+    if key not in _flat_fns:
+        _flat_fns[key] = z3.Function('chain_flat_' + key.replace(' ', '_'), z3.SeqSort(z3.SeqSort(ety.sort())), z3.SeqSort(ety.sort()))
+    return _flat_fns[key]
 
 _keys_fns = {}
 def keys_list_fn(kty):
@@ -1866,6 +1883,14 @@ class CallMixin(object):
             st.pc.append(z3.ForAll([x], z3.Contains(lst, z3.Unit(x)) == z3.Select(sd.has, x), patterns=[z3.Contains(lst, z3.Unit(x))]))
             self.reg.assume('A4: list(d.keys()) lists exactly the keys of d (order not modelled)')
             return [(SeqV(lst, sd.kty), st)]
+        if name in ('tuple', 'list') and d and isinstance(d[0], SymValues):
+            sd = d[0].d
+            if sd.order is None: raise Unsupported('list(d.values()) of a dict whose insertion order is not tracked (declare it T.ODict)')
+            self.reg.assume('A4: list(d.values()) lists the values in the insertion order of their keys')
+            lst = fresh(z3.SeqSort(sd.vty.sort()), 'values'); i_ = z3.Int('i!vals')
+            st.pc += [z3.Length(lst) == z3.Length(sd.order),
+                      z3.ForAll([i_], z3.Implies(z3.And(0 <= i_, i_ < z3.Length(sd.order)), lst[i_] == z3.Select(sd.get, sd.order[i_])), patterns=[lst[i_]])]
+            return [(st.new_cell(SeqV(lst, sd.vty)) if name == 'list' else SeqV(lst, sd.vty), st)]
         if name in ('tuple', 'list'):
             if d and isinstance(d[0], NTup): d = [Tup(list(d[0].items))] + d[1:]
             if not d: return [(st.new_cell(PyList([])) if name == 'list' else Tup([]), st)]
@@ -1983,6 +2008,12 @@ class CallMixin(object):
             self.reg.assume('A4: str.split(sep, n) = at most n+1 sep-separated pieces (uninterpreted function split_on_max; at least one piece)')
             pieces = split_on_max(r.z, z3.StringVal(d[0].s), z3.IntVal(n_))
             st.pc += [z3.Length(pieces) >= 1, z3.Length(pieces) <= n_ + 1]
+            if n_ == 1 and d[0].s:
+                # exact for one split: at the leftmost occurrence of the (non-empty) separator, or the whole text when there is none
+                sep_ = z3.StringVal(d[0].s); ix = z3.IndexOf(r.z, sep_, 0); ls = len(d[0].s)
+                st.pc.append(z3.If(z3.Contains(r.z, sep_),
+                                   z3.And(z3.Length(pieces) == 2, pieces[0] == z3.SubString(r.z, 0, ix), pieces[1] == z3.SubString(r.z, ix + ls, z3.Length(r.z) - ix - ls)),
+                                   z3.And(z3.Length(pieces) == 1, pieces[0] == r.z)))
             return [(SeqV(pieces, T.Str), st)]
         if isinstance(r, Sc) and r.py == 'str' and name == 'strip' and not args:
             return [(Sc(strip_ws(r.z), 'str'), st)]
@@ -2078,6 +2109,8 @@ class CallMixin(object):
             return [(wrap(r.vty, z3.Select(ng, k)), st)]
         if isinstance(r, SymDict) and name == 'keys' and not args:
             return [(SymKeys(r), st)]
+        if isinstance(r, SymDict) and name == 'values' and not args:
+            return [(SymValues(r), st)]
         if isinstance(r, SymDict):
             if name == 'get':
                 k = self.key_term(args[0], st)
@@ -2086,6 +2119,7 @@ class CallMixin(object):
                 s1 = st.copy(); s1.pc.append(present)
                 s2 = st.copy(); s2.pc.append(z3.Not(present))
                 return [(wrap(r.vty, z3.Select(r.get, k)), s1), (dflt, s2)]
+        if isinstance(r, PyDict) and name == 'values' and not args: return [(Tup(list(r.d.values())), st)]
         if isinstance(r, PyDict):
             if name == 'get':
                 k = d[0]
@@ -2417,13 +2451,18 @@ class CallMixin(object):
             for fname, item in zip(d.cls.fields, d.items):
                 fty = decl.fields.get(fname)
                 if fty is None: raise Unsupported('namedtuple field %s not declared for %s' % (fname, decl.name))
-                if fty.kind == 'Opt': raise Unsupported('optional field of a namedtuple built in the function')
+                if fty.kind == 'Opt':
+                    ov = self.coerce(item, fty, st, fname); inner_ = fty.args[0]
+                    st.pc.append(field(decl.name, fname + '?none', BoolS)(o.z) == ov.isnone)
+                    st.pc.append(z3.Implies(z3.Not(ov.isnone), field(decl.name, fname, inner_.sort())(o.z) == unwrap(self.deref(ov.val, st))))
+                    continue
                 st.pc.append(field(decl.name, fname, fty.sort())(o.z) == unwrap(self.deref(self.coerce(item, fty, st, fname), st)))
             return o
         if k == 'Obj' and isinstance(d, Obj) and d.cls != ty.args[0] and getattr(self.reg.classes.get(ty.args[0]), 'view_of', None) == d.cls:
             # the same Python object seen through a narrower sidecar class: its fields must be present (obligation) and are equal
             tdecl = self.reg.classes[ty.args[0]]; sdecl = self.reg.classes[d.cls]
             o = Obj(fresh(ObjSort(tdecl.name), tdecl.name.lower()), tdecl.name)
+            st.pc.append(view_source_fn(tdecl.name, sdecl.name)(o.z) == d.z)      # which object the view presents (contracts may name it)
             for fname, fty in tdecl.fields.items():
                 sty = sdecl.fields.get(fname)
                 if sty is None: raise Unsupported('view field %s.%s missing in %s' % (tdecl.name, fname, sdecl.name))
@@ -2492,6 +2531,14 @@ class CallMixin(object):
             st.pc += [x >= 0, y >= 0, y * y == x]
             self.reg.assume('math.sqrt(x) for x >= 0 is the non-negative y with y*y == x (exact; its rounding is A1); ValueError for x < 0')
             return [(Sc(y, 'float'), st)]
+        if mod == 'collections' and name == 'OrderedDict' and not args and not kw:
+            return [(st.new_cell(PyDict({})), st)]      # (every dict is insertion ordered; whether the order is tracked is the declared type's business: T.ODict)
+        if '%s.%s' % (mod, name) == 'itertools.chain.from_iterable' and len(args) == 1:
+            xs = self.deref(args[0], st)
+            if not (isinstance(xs, SeqV) and xs.elem.kind == 'List'): raise Unsupported('chain.from_iterable(%r)' % (xs,))
+            self.reg.assume('A4: itertools.chain.from_iterable(lists) yields the elements of the lists, list after list (uninterpreted function chain_flat; empty for no lists)')
+            fl = chain_flat_fn(xs.elem.args[0])(xs.z)
+            return [(SeqV(fl, xs.elem.args[0]), st)]
         if mod == 'collections' and name == 'namedtuple':
             nm = self.deref(args[0], st); fl = self.deref(args[1], st)
             fields = [self.deref(x, st) for x in self.iter_concrete(args[1], st)]
@@ -2676,6 +2723,7 @@ class Executor(Exec, ExprMixin, StmtMixin, CallMixin):
                     elif c.result.kind == 'List' and isinstance(vd, (PyList, Tup)) and not vd.items: res_z = z3.Empty(c.result.sort())
                     elif c.result.kind == 'Fn': res_z = self.as_fn(val, o.state)
                     elif c.result.kind == 'Obj' and isinstance(vd, Rec): res_z = self.rec_to_obj(vd, o.state).z
+                    elif c.result.kind == 'Obj' and isinstance(vd, NTup): res_z = self.coerce(val, c.result, o.state, 'res').z
                     else: res_z = unwrap(vd)
                 ns = NS(self, o.state, frame=o.state.frames[0])
                 for i, g in enumerate(c.ensures(ns, self.old_ns, res_z)):
